@@ -1,5 +1,6 @@
 """A streaming reader for DiffX files."""
 
+import codecs
 import io
 import json
 import os
@@ -487,6 +488,15 @@ class DiffXReader(object):
                 'Expected the indent option to be a non-negative integer',
                 linenum=self._linenum)
 
+        if encoding is not None:
+            try:
+                if not codecs.lookup(encoding)._is_text_encoding:
+                    raise LookupError
+            except (LookupError, TypeError):
+                raise DiffXParseError(
+                    'Unsupported encoding "%s"' % encoding,
+                    linenum=self._linenum)
+
         # First, determine the line endings that we're going to be working
         # with.
         if line_endings:
@@ -501,8 +511,12 @@ class DiffXReader(object):
         else:
             # An explicit line ending type was not specified. Try to determine
             # the appropriate line ending based on the first line of content.
-            line_endings, newline = guess_line_endings(content,
-                                                       encoding=encoding)
+            try:
+                line_endings, newline = guess_line_endings(content,
+                                                           encoding=encoding)
+            except ValueError as e:
+                raise DiffXParseError(str(e),
+                                      linenum=self._linenum)
 
         lines = split_lines(data=content,
                             newline=newline,
@@ -523,8 +537,14 @@ class DiffXReader(object):
         if encoding and not keep_bytes:
             # We know what this content was encoded with. We can now decode
             # it.
-            content = content.decode(encoding)
-            newline = newline.decode(encoding)
+            try:
+                content = content.decode(encoding)
+                newline = newline.decode(encoding)
+            except ValueError as e:
+                raise DiffXParseError(
+                    'The content could not be decoded as %s: %s'
+                    % (encoding, e),
+                    linenum=self._linenum)
 
         # Validate that the content ends in a newline. This is to ensure that
         # the file was written according to spec.
